@@ -59,7 +59,8 @@ theorem indexed_eq_plain (w : World) (rules : Rules) (inv : Inventory) :
   exact indexedOutcomes_iff_plainOutcomes w (fun p _ => indexSafe_all inv p.2) o ho
 
 def cexWorld : World :=
-  { globals := fun _ => none, other := fun _ _ _ _ => none, field := fun _ _ => none, nav := fun _ _ => .empty }
+  { globals := fun _ => none, other := fun _ _ _ _ => none, field := fun _ _ => none, nav := fun _ _ => .empty,
+    navNames := defaultNavNames }
 
 def hostNameIs (n : String) : Expr := .eq (.idx (.var "host") (.lit (.str "name"))) (.lit (.str n))
 
@@ -184,11 +185,14 @@ theorem order_independent (w : World) (r₁ r₂ : Rules) (i₁ i₂ : Inventory
   per disjunct (Q-C16b); the property speaks of sets. -/
 
 /-- **api_fast_path_eq_plain.**  `GetFilterTargets` returns the same set of objects (or raises alike) whether or
-    not the filter takes the name-index fast path, for every filter, `filter_vars`, type and inventory. -/
+    not the filter takes the name-index fast path, for every filter, `filter_vars`, type and inventory, and for
+    every set of navigation fields the types may have — provided only that `host`/`service` denote the target
+    (`NavOk`: no navigation field of Host is called `host`; a Service has the navigation field `host` and none
+    called `service`; checked on the implementation's type reflection in every run). -/
 theorem api_fast_path_eq_plain (w : World) (fvars : Option (List (String × Val))) (ty : TgtType) (e : Expr)
-    (inv : Inventory) : ApiEquiv (apiTargets w fvars ty e inv) (apiSlow w fvars ty e inv) := by
+    (inv : Inventory) (hnav : NavOk w ty) : ApiEquiv (apiTargets w fvars ty e inv) (apiSlow w fvars ty e inv) := by
   unfold apiTargets
-  cases hcol : fvarsCollide ty fvars with
+  cases hcol : fvarsCollide w ty fvars with
   | true => exact ApiEquiv.refl _
   | false =>
     have hd := fvarsDisjoint_of_not_collide hcol
@@ -198,7 +202,7 @@ theorem api_fast_path_eq_plain (w : World) (fvars : Option (List (String × Val)
       simp only
       split
       · next names hn =>
-        rw [api_host_case w fvars e inv hd hn]
+        rw [api_host_case w fvars e inv hnav hd hn]
         intro t
         simp only [List.mem_filter, List.contains_eq_mem, decide_eq_true_eq, and_comm]
       · exact ApiEquiv.refl _
@@ -206,10 +210,14 @@ theorem api_fast_path_eq_plain (w : World) (fvars : Option (List (String × Val)
       simp only
       split
       · next names hn =>
-        rw [api_service_case w fvars e inv hd hn]
+        rw [api_service_case w fvars e inv hnav hd hn]
         intro t
         simp only [List.mem_filter, List.contains_eq_mem, decide_eq_true_eq, and_comm]
       · exact ApiEquiv.refl _
+
+/-- `NavOk` holds of today's types (and is checked by the driver on the reflected field names) -/
+example : NavOk cexWorld .host ∧ NavOk cexWorld .service := by
+  refine ⟨?_, ?_⟩ <;> simp [NavOk, cexWorld, defaultNavNames]
 
 /-- regression for F-C16c — `filter = host.name == obj`, `filter_vars = { obj = "h0" }`: evaluation sees `obj`
     bound to the target object and returns nothing; so does `GetFilterTargets` now -/
@@ -315,9 +323,9 @@ theorem model_load_meets_spec (w : World) (rules : Rules) (inv : Inventory) (sil
 
 /-- … and the API model satisfies `specApi`. -/
 theorem model_api_meets_spec (w : World) (fvars : Option (List (String × Val))) (ty : TgtType) (e : Expr)
-    (inv : Inventory) :
+    (inv : Inventory) (hnav : NavOk w ty) :
     specApi w fvars ty e inv { fast := apiTargets w fvars ty e inv, slow := apiSlow w fvars ty e inv } = none :=
-  model_api_meets_spec_aux w fvars ty e inv (api_fast_path_eq_plain w fvars ty e inv)
+  model_api_meets_spec_aux w fvars ty e inv (api_fast_path_eq_plain w fvars ty e inv hnav)
 
 /-! ## The specification predicate is not vacuous -/
 
